@@ -34,8 +34,13 @@ def load_repo():
     mods = {}
     for n in names:
         mods[n] = importlib.import_module(n)
+    global _repo_tmp_path
+    _repo_tmp_path = mods["global_params.paths"].tmp_path
     _loaded = mods
     return mods
+
+
+_repo_tmp_path = "/tmp/"
 
 
 class SimOS:
@@ -161,7 +166,13 @@ def install(fs, env, solver=None, forves=None):
 
     paths = mods["global_params.paths"]
     name = env.get("tmp_name", "sim0")
-    paths.tmp_path = "/sim/tmp/"
+    # the temporary directory is the one the repository itself chose at import time (it may depend on the process
+    # environment), mounted under /sim; that directory exists, as the real one would
+    paths.tmp_path = "/sim" + (_repo_tmp_path if _repo_tmp_path.startswith("/") else "/" + _repo_tmp_path)
+    d = paths.tmp_path.rstrip("/")
+    while d and d != "/sim":
+        fs.dirs.add(d)
+        d = _real_os.path.dirname(d)
     paths.gasol_folder = "gasol_" + name
     paths.gasol_path = paths.tmp_path + paths.gasol_folder + "/"
     paths.json_path = paths.gasol_path + "jsons"
